@@ -950,14 +950,30 @@ func (e *bEngine) runPath(st *bState, work *[]*bState, atReturn func(st *bState,
 		case *ssa.MakeMap, *ssa.MakeChan:
 			fr.vals[x.(ssa.Value)] = bOpaque{typ: x.(ssa.Value).Type(), name: "make"}
 		case *ssa.Lookup:
+			// a map read: what an earlier update or read of the SAME map with the SAME key term gave (maps
+			// with scalar keys; everything else, and strings, yields an unconstrained value)
+			var elemT types.Type = x.Type()
+			if x.CommaOk {
+				elemT = x.Type().(*types.Tuple).At(0).Type()
+			}
+			if v, ok, found := e.mapLookup(st, e.get(st, fr, x.X), e.get(st, fr, x.Index), elemT); found {
+				if x.CommaOk {
+					fr.vals[x] = bTuple{v, bScalar{ok}}
+				} else {
+					fr.vals[x] = v
+				}
+				break
+			}
 			e.note("map/string lookups yield unconstrained values")
 			if x.CommaOk {
-				fr.vals[x] = bTuple{e.symVal(st, e.freshName("lookup"), x.Type().(*types.Tuple).At(0).Type()), bScalar{Var(e.freshName("ok"), SBool)}}
+				fr.vals[x] = bTuple{e.symVal(st, e.freshName("lookup"), elemT), bScalar{Var(e.freshName("ok"), SBool)}}
 			} else {
 				fr.vals[x] = e.symVal(st, e.freshName("lookup"), x.Type())
 			}
 		case *ssa.MapUpdate:
-			e.note("map updates are not modelled")
+			if !e.mapUpdate(st, e.get(st, fr, x.Map), e.get(st, fr, x.Key), e.get(st, fr, x.Value)) {
+				e.note("map updates are not modelled")
+			}
 		case *ssa.MakeClosure:
 			fv := bFuncVal{name: x.Fn.String()}
 			if f, ok := x.Fn.(*ssa.Function); ok {
@@ -1944,4 +1960,59 @@ func (e *bEngine) signedRange(st *bState, t *Term, typ types.Type, what string, 
 	}
 	lo, hi := k.rng()
 	e.oblige(st, "overflow", what, And(Le(Const(lo), t), Le(t, Const(hi))), e.fp.fset.Position(pos).String())
+}
+
+// ---------- maps with scalar keys ----------
+//
+// A map is known by the name of the opaque value that stands for it (the access path of an input map).  What is
+// known of it is a set of entries (rendered key term -> value, present?).  A read with a key term seen before
+// returns the same entry; a read with a new key term creates an unconstrained entry and remembers it; an update
+// sets its entry and forgets every other one (the keys may be equal).  Maps made by the function itself
+// (`make`) are not tracked.
+
+func mapIdentity(m bVal) (string, bool) {
+	o, ok := m.(bOpaque)
+	if !ok || o.name == "" || o.name == "make" || o.name == "zero" {
+		return "", false
+	}
+	return o.name, true
+}
+
+func (e *bEngine) mapLookup(st *bState, m, key bVal, elemT types.Type) (bVal, *Term, bool) {
+	id, ok := mapIdentity(m)
+	ks, isScalar := key.(bScalar)
+	if !ok || !isScalar || ks.t == nil || ks.t.Sort != SInt {
+		return nil, nil, false
+	}
+	kk := st.norm(ks.t).Key()
+	if st.mapv == nil {
+		st.mapv = map[string]map[string]bMapEntry{}
+	}
+	if st.mapv[id] == nil {
+		st.mapv[id] = map[string]bMapEntry{}
+	}
+	if en, ok := st.mapv[id][kk]; ok {
+		return cloneVal(en.val), en.ok, true
+	}
+	name := fmt.Sprintf("%s[%s]", id, kk)
+	en := bMapEntry{val: e.symVal(st, name, elemT), ok: Var(name+".present", SBool)}
+	st.mapv[id][kk] = en
+	return cloneVal(en.val), en.ok, true
+}
+
+func (e *bEngine) mapUpdate(st *bState, m, key, val bVal) bool {
+	id, ok := mapIdentity(m)
+	ks, isScalar := key.(bScalar)
+	if !ok {
+		return false
+	}
+	if st.mapv == nil {
+		st.mapv = map[string]map[string]bMapEntry{}
+	}
+	if !isScalar || ks.t == nil || ks.t.Sort != SInt {
+		delete(st.mapv, id) // an update under a key the model does not follow: nothing is known any more
+		return false
+	}
+	st.mapv[id] = map[string]bMapEntry{st.norm(ks.t).Key(): {val: cloneVal(val), ok: TTrue}}
+	return true
 }
